@@ -26,6 +26,11 @@ type Obligation struct {
 	Secs   float64
 	Model  string
 	Query  string
+	queryCVC string
+	queryPrefer string
+	queryQF string
+	Candidate bool // Model is a candidate counterexample from a weakened query
+	Prefer []*Term
 	Vals   []*Term // terms whose model values are wanted for replay
 	ValNames []string
 }
